@@ -60,10 +60,10 @@ inline std::string hex(const uint8_t* b, uint64_t n) {
     for (uint64_t i = 0; i < n; i++) { snprintf(t, sizeof t, "%02x", b[i]); s += t; }
     return s;
 }
-inline Props walk_props(const Property* p) {
+inline Props walk_props(const Property* p, bool managed_standard_only = false) {
     Props out;
     for (; p; p = p->next) {
-        if (p->name && is_managed_standard_property(p->name)) continue;
+        if ((p->name && is_managed_standard_property(p->name)) != managed_standard_only) continue;
         Prop q;
         q.name = p->name ? p->name : "";
         for (PropertyValue* v = p->value; v; v = v->next) {
@@ -148,14 +148,17 @@ struct Elem {
 struct CellM {
     std::string name;
     Props props;
+    Props std_props;  // the S_* standard properties write_oas manages (compared between consecutive cycles only)
     std::vector<Elem> elems;
 };
 struct Model {
     double precision = 0;
     Props lib_props;
+    Props std_lib_props;  // managed S_* properties of the library, in list order
     std::map<std::string, CellM> cells;
     std::vector<std::string> problems;   // the library is outside what the model can represent
     bool dangling = false;               // some reference names a cell that is not in the library
+    bool representation_changes_on_load = false;  // by-name reference to a present cell (re-loads by pointer) or pointer to a cell outside the library (re-loads by name)
     int skipped_nonsimple = 0;           // lenient walk: non-simple paths left out (their expectation comes from the corpus)
 };
 
@@ -376,6 +379,7 @@ struct Walker {
             tk = "rawcell";
         }
         if (!names.count(target)) m.dangling = true;
+        if (tk == "name_present" || tk == "pointer_not_in_library") m.representation_changes_on_load = true;
         e.f.push_back({"target", hex((const uint8_t*)target.data(), target.size())});
         e.f.push_back({"position", "(" + istr(grid(r.origin.x * scaling)) + "," + istr(grid(r.origin.y * scaling)) + ")"});
         double a = fmod(r.rotation, 2 * M_PI);
@@ -399,11 +403,13 @@ struct Walker {
         }
         if (lib.rawcell_array.count) m.problems.push_back("raw cells");
         m.lib_props = walk_props(lib.properties);
+        m.std_lib_props = walk_props(lib.properties, true);
         for (uint64_t i = 0; i < lib.cell_array.count; i++) {
             const Cell& c = *lib.cell_array[i];
             CellM cm;
             cm.name = c.name ? c.name : "";
             cm.props = walk_props(c.properties);
+            cm.std_props = walk_props(c.properties, true);
             for (uint64_t k = 0; k < c.polygon_array.count; k++) polygon(cm, *c.polygon_array[k]);
             for (uint64_t k = 0; k < c.flexpath_array.count; k++) flexpath(cm, *c.flexpath_array[k]);
             for (uint64_t k = 0; k < c.robustpath_array.count; k++) robustpath(cm, *c.robustpath_array[k]);
@@ -625,6 +631,40 @@ inline void compare_pair(std::vector<Diff>& out, const std::string& cell, const 
     if (el.size() >= 2) el = el.substr(1, el.size() - 2);
     add_prop_diff(out, el, t, a.props, b.props, "cell " + cell + " " + a.kind);
     if (a.kind == "polygon" && a.get("points") == b.get("points") && a.forward_cycle != b.forward_cycle) ctx.orientation_reversed++;
+}
+// The managed standard properties of two consecutive cycles, compared as multisets with multiplicities
+// (per property name: the sorted list of its value lists).
+// geometry_values = false: for the properties whose VALUES summarise geometry / file layout (S_BOUNDING_BOX, S_CELL_OFFSET,
+// S_POLYGON_MAX_VERTICES, S_PATH_MAX_VERTICES) only the multiplicities are compared.  Used between the first and the second
+// re-loaded library: the first file summarises the un-rounded source, the second the library rounded to the grid.
+inline bool is_geometry_summary(const std::string& n) { return n == "S_BOUNDING_BOX" || n == "S_CELL_OFFSET" || n == "S_POLYGON_MAX_VERTICES" || n == "S_PATH_MAX_VERTICES"; }
+inline void compare_std_one(std::vector<Diff>& out, const std::string& owner, const std::string& where, const Props& a, const Props& b, int cycle, const std::string& how, bool geometry_values = true) {
+    std::map<std::string, std::vector<std::string>> ma, mb;
+    for (auto& p : a) ma[p.name].push_back(props_str({p}));
+    for (auto& p : b) mb[p.name].push_back(props_str({p}));
+    std::set<std::string> names;
+    for (auto& kv : ma) { std::sort(kv.second.begin(), kv.second.end()); names.insert(kv.first); }
+    for (auto& kv : mb) { std::sort(kv.second.begin(), kv.second.end()); names.insert(kv.first); }
+    for (auto& n : names) {
+        if (ma[n] == mb[n]) continue;
+        if (!geometry_values && is_geometry_summary(n) && ma[n].size() == mb[n].size()) continue;
+        Diff d;
+        bool count_changed = ma[n].size() != mb[n].size();
+        d.cls = "standard_properties:" + how + ":" + owner + ":" + n + (count_changed ? ":count_changed" : ":values_changed");
+        d.tags = {{"owner", jstr(owner)}, {"property", jstr(n)}, {"how", jstr(how)}, {"count_changed", jbool(count_changed)}, {"cycle", jint(cycle)}};
+        d.detail = where + ": " + n + " occurs " + std::to_string(ma[n].size()) + " time(s) after one save/load and " + std::to_string(mb[n].size()) + " time(s) after the next (" + how + "); before " + props_str(a) + " | after " + props_str(b);
+        if (d.detail.size() > 3000) d.detail.resize(3000);
+        out.push_back(d);
+    }
+}
+inline std::vector<Diff> compare_std(const Model& A, const Model& B, int cycle, const std::string& how, bool geometry_values = true) {
+    std::vector<Diff> out;
+    compare_std_one(out, "library", "library", A.std_lib_props, B.std_lib_props, cycle, how, geometry_values);
+    for (auto& kv : A.cells) {
+        auto it = B.cells.find(kv.first);
+        if (it != B.cells.end()) compare_std_one(out, "cell", "cell " + kv.first, kv.second.std_props, it->second.std_props, cycle, how, geometry_values);
+    }
+    return out;
 }
 inline int equal_fields(const Elem& a, const Elem& b) {
     int n = 0;
